@@ -21,7 +21,8 @@
 
 namespace {
 
-enum { OP_LOG = 1, OP_SETLEVEL, OP_SLEEP, OP_YIELD, OP_WRITER_FAIL, OP_STREAM_FAIL, OP_FORMAT_DIRECT, OP_LOG_SIDE };
+enum { OP_LOG = 1, OP_SETLEVEL, OP_SLEEP, OP_YIELD, OP_WRITER_FAIL, OP_STREAM_FAIL, OP_FORMAT_DIRECT, OP_LOG_SIDE, OP_SUBJECTS };
+// OP_SUBJECTS (single logging thread only): a = 0 unregister the application's subject list, 1 register it with the first set of names, 2 with a second set
 enum { MODE_EXT_BG = 1, MODE_EXT_FG = 2, MODE_STANDARD = 3, MODE_NOALLOC = 4 };
 // cfg "own_file": modes 3 and 4 let the library open (and later close) the log file itself by name
 static const int CTRL = 5;
@@ -81,6 +82,7 @@ struct Ctx {
     const char *subject_name = nullptr;
     // A second, independent logger alive next to the one under test (cfg "side_logger"): a no-alloc logger on a stream of its own,
     // used through AWS_LOGUF by the same threads. Each logger's lines must reach its own sink only, whole, once and in order.
+    int nloggers = 1;
     int writer_logs = 0;        // background mode: the writer logs this many lines of its own through the logger
     bool writer_nested = false;
     bool have_side = false, side_cleaned = false;
@@ -99,6 +101,20 @@ static const int kCustomPackage = 20; // a package slot no aws-c-* library uses 
 static struct aws_log_subject_info g_custom_info[sizeof kCustomLens / sizeof kCustomLens[0]];
 static struct aws_log_subject_info_list g_custom_list;
 static std::string g_custom_names[sizeof kCustomLens / sizeof kCustomLens[0]];
+static struct aws_log_subject_info g_custom_info2[sizeof kCustomLens / sizeof kCustomLens[0]];
+static struct aws_log_subject_info_list g_custom_list2;
+static std::string g_custom_names2[sizeof kCustomLens / sizeof kCustomLens[0]];
+static int g_custom_state = 0; // which list is registered right now in this process: 0 none, 1 first names, 2 second names
+// what the prefix must show for an application subject: the name registered at the time of the log call, or "Unknown"
+const char *model_custom_name(int i) { return g_custom_state == 1 ? g_custom_names[i].c_str() : g_custom_state == 2 ? g_custom_names2[i].c_str() : "Unknown"; }
+void set_custom_state(int want) {
+    if (want == g_custom_state) return;
+    if (g_custom_state == 1) aws_unregister_log_subject_info_list(&g_custom_list);
+    if (g_custom_state == 2) aws_unregister_log_subject_info_list(&g_custom_list2);
+    if (want == 1) aws_register_log_subject_info_list(&g_custom_list);
+    if (want == 2) aws_register_log_subject_info_list(&g_custom_list2);
+    g_custom_state = want;
+}
 void register_custom_subjects() {
     static bool done = false;
     if (done) return;
@@ -112,7 +128,16 @@ void register_custom_subjects() {
     }
     g_custom_list.subject_list = g_custom_info;
     g_custom_list.count = (size_t)kNumCustom;
+    for (int i = 0; i < kNumCustom; i++) { // the same ids under other names of other lengths (a plug-in upgraded in place)
+        g_custom_names2[i] = "v2-" + std::string((size_t)(kCustomLens[(i + 5) % kNumCustom] % 97 + 1), (char)('A' + i % 26));
+        g_custom_info2[i].subject_id = g_custom_info[i].subject_id;
+        g_custom_info2[i].subject_name = g_custom_names2[i].c_str();
+        g_custom_info2[i].subject_description = "dsim custom subject, second edition";
+    }
+    g_custom_list2.subject_list = g_custom_info2;
+    g_custom_list2.count = (size_t)kNumCustom;
     aws_register_log_subject_info_list(&g_custom_list);
+    g_custom_state = 1;
 }
 
 static const char *kDateFmt[] = {"%a, %d %b %Y %H:%M:%S GMT", "%Y-%m-%dT%H:%M:%SZ", "%Y%m%dT%H%M%SZ"}; // RFC 822, ISO 8601, ISO 8601 basic
@@ -330,7 +355,7 @@ void do_log(Ctx &c, int thr, const sim::Op &op) {
     c.calls.emplace_back();
     Call &call = c.calls.back();
     call.thr = thr; call.k = k; call.level = level;
-    call.subject_name = aws_log_subject_name(subject);
+    call.subject_name = si >= 3 ? model_custom_name(si - 3) : aws_log_subject_name(subject);
     char head[64];
     snprintf(head, sizeof head, "M%d.%d|", thr, k);
     std::string full = std::string(head) + body;
@@ -506,6 +531,9 @@ void logger_fn(void *arg) {
             case OP_LOG: do_log(c, ta->idx, op); break;
             case OP_LOG_SIDE: do_log_side(c, ta->idx, op); break;
             case OP_FORMAT_DIRECT: do_format_direct(c, ta->idx, op); break;
+            case OP_SUBJECTS:
+                if (c.nloggers == 1) { sim::probe("application_subject_list_unregistered_or_replaced"); set_custom_state((int)(op.a % 3)); }
+                break;
             case OP_SLEEP: sim::sleep_ns((uint64_t)op.a); break;
             case OP_YIELD: sim::yield(); break;
             case OP_SETLEVEL: {
@@ -555,12 +583,14 @@ RunInfo run(const sim::Plan &plan) {
     c.slow_permille = plan.get("slow_permille", 0);
     c.wr = sim::Rng(sim::mix64(plan.seed, 0x51077));
     register_custom_subjects();
+    set_custom_state(1); // every run starts with the first list registered (an earlier run may have ended in another state)
     c.subject_name = aws_log_subject_name(AWS_LS_COMMON_GENERAL);
     simfile::reset();
     for (const sim::Op &op : plan.ops) if (op.kind == OP_WRITER_FAIL) c.writer_fail_at.push_back(op.a);
     int nloggers = (int)plan.get("nloggers", 2);
     if (nloggers < 1) nloggers = 1;
     if (nloggers > 4) nloggers = 4;
+    c.nloggers = nloggers;
 
     g_date_format = 1; // the standard and no-alloc loggers always use ISO 8601
     sim::begin(plan);
@@ -766,6 +796,7 @@ void gen(uint64_t seed, int tier, sim::Plan &p) {
                 f.b = r.range(0, 5); f.c = r.pick(std::vector<int64_t>{0, 1, 5, 40, 300}); f.d = (int64_t)(r.next() >> 2);
                 p.ops.push_back(f);
             }
+            if (nl == 1 && r.chance(0.08)) { sim::Op su; su.thr = t; su.kind = OP_SUBJECTS; su.a = r.range(0, 2); p.ops.push_back(su); }
             if (r.chance(0.12)) { sim::Op s; s.thr = t; s.kind = r.chance(0.5) ? OP_YIELD : OP_SLEEP; s.a = r.pick(std::vector<int64_t>{1000, 1000000, 1000000000}); p.ops.push_back(s); }
             if (side && r.chance(0.5)) {
                 sim::Op so; so.thr = t; so.kind = OP_LOG_SIDE; so.a = r.range(0, 5); so.c = r.chance(0.85) ? r.range(0, 200) : r.range(8000, 8300); so.d = (int64_t)(r.next() >> 2);
@@ -814,6 +845,7 @@ std::string op_text(const sim::Op &op) {
             snprintf(b, sizeof b, "T%d: %s(%s, format %s, body of %lld bytes)", op.thr, fm[(op.a / 6) % 4], kLevel[op.a % 6 + 1], sh[op.b % 5], (long long)op.c);
             break;
         }
+        case OP_SUBJECTS: snprintf(b, sizeof b, "T%d: application subject list: %s", op.thr, op.a % 3 == 0 ? "unregister" : op.a % 3 == 1 ? "register (first names)" : "register (second names, same ids)"); break;
         case OP_LOG_SIDE: snprintf(b, sizeof b, "T%d: AWS_LOGUF(second logger, %s, body of %lld bytes)", op.thr, kLevel[op.a % 6 + 1], (long long)op.c); break;
         case OP_SETLEVEL: snprintf(b, sizeof b, "controller: aws_logger_set_log_level(%s)", kLevel[op.a % 7]); break;
         case OP_SLEEP: snprintf(b, sizeof b, "T%d: sleep(%lld ns virtual)", op.thr, (long long)op.a); break;
